@@ -253,6 +253,11 @@ def write_ev(prop, tier, seed, res, facts, nfiles, mod, fresh, seen_known, extra
         'checker_cmd': './check %s --tier %s' % (prop, tier),
         'trusted_base': ['rustc front end / MIR construction', 'factgen extractor', 'std container semantics', 'hand lemmas in DESIGN.md section 4'],
         'known_findings_seen': [v['key'] for v in seen_known],
+        # what the normaliser did to the facts before the rules ran (renames mapped back, new helpers inlined,
+        # combinators rewritten as matches); the rules decide the normalised program, which is behaviour-equivalent
+        'normalisation': {'renames_and_inlined_helpers': [n for n in getattr(facts, 'renames', []) if not n.startswith('expanded') and not n.startswith('NOT expanded')][:40],
+                          'combinators_expanded': len([n for n in getattr(facts, 'renames', []) if n.startswith('expanded')]),
+                          'combinators_left_opaque': [n for n in getattr(facts, 'renames', []) if n.startswith('NOT expanded')][:20]},
     }
     cov.update({k: v for k, v in extra.items() if k != 'failures'})
     ev = {
